@@ -206,7 +206,103 @@ theorem roundedBox_neg_iff_minkowski (c b : P3) (hx : 0 ≤ b.x) (hy : 0 ≤ b.y
     have := (abs_le.mp hl).2
     linarith
 
+/-! ### rounded cylinder = Minkowski sum of its core cylinder with a ball -/
+
+/-- the core of the rounded cylinder: the solid cylinder of radius `2·ra − rb` about the vertical axis through
+    `pos`, of half height `h` (the source doubles `radius`, as Quilez' formula does) -/
+def InCoreCyl (pos : P3) (ra rb h : ℝ) (q : P3) : Prop :=
+  Real.sqrt ((q.x - pos.x) ^ 2 + (q.z - pos.z) ^ 2) ≤ 2 * ra - rb ∧ |q.y - pos.y| ≤ h
+
+theorem roundedCylinder_core_le (pos : P3) (ra rb h : ℝ) (q : P3) (hq : InCoreCyl pos ra rb h q) :
+    RoundedCylinder pos ra rb h q ≤ -rb := by
+  rw [roundedCylinder_eq]
+  have hs : sup2 (cylD pos ra rb h q) ≤ 0 := by
+    apply max_le
+    · simp [cylD]; linarith [hq.1]
+    · simp [cylD]; linarith [hq.2]
+  rw [G2_of_nonpos hs]; linarith
+
+/-- the rounded cylinder is negative exactly at the points closer than the rounding radius `rb` to its core
+    cylinder: the shape is the Minkowski sum of the core with the open ball of radius `rb` -/
+theorem roundedCylinder_neg_iff_minkowski (pos : P3) (ra rb h : ℝ) (hR : 0 ≤ 2 * ra - rb) (hh : 0 ≤ h) (hrb : 0 < rb)
+    (p : P3) : RoundedCylinder pos ra rb h p < 0 ↔ ∃ q : P3, InCoreCyl pos ra rb h q ∧ p.Distance q < rb := by
+  constructor
+  · intro hneg
+    rw [roundedCylinder_eq] at hneg
+    set D := cylD pos ra rb h p with hD
+    set ρ := Real.sqrt ((p.x - pos.x) ^ 2 + (p.z - pos.z) ^ 2) with hρ
+    have hρ0 : 0 ≤ ρ := Real.sqrt_nonneg _
+    have hρρ : ρ * ρ = (p.x - pos.x) ^ 2 + (p.z - pos.z) ^ 2 := Real.mul_self_sqrt (by positivity)
+    have d0 : D 0 = ρ - (2 * ra - rb) := by simp [hD, cylD, hρ]; ring
+    have d1 : D 1 = |p.y - pos.y| - h := by simp [hD, cylD]
+    rcases le_or_gt (sup2 D) 0 with hs | hs
+    · -- p itself is in the core
+      refine ⟨p, ⟨?_, ?_⟩, ?_⟩
+      · have : D 0 ≤ 0 := (le_max_left _ _).trans hs
+        rw [d0] at this; linarith
+      · have : D 1 ≤ 0 := (le_max_right _ _).trans hs
+        rw [d1] at this; linarith
+      · have : p.Distance p = 0 := V3.distance_eq_zero.mpr rfl
+        rw [this]; exact hrb
+    · -- clamp radially and axially into the core
+      rw [G2_of_nonneg hs.le] at hneg
+      set R := 2 * ra - rb with hRdef
+      set lam : ℝ := if ρ ≤ R then 1 else R / ρ with hlam
+      set cy := max (-h) (min (p.y - pos.y) h) with hcy
+      have hlam0 : 0 ≤ lam := by
+        rw [hlam]; split
+        · norm_num
+        · exact div_nonneg hR hρ0
+      have hlamρ : lam * ρ = min ρ R := by
+        rw [hlam]; split
+        · rename_i hle; rw [one_mul, min_eq_left hle]
+        · rename_i hgt
+          have hgt' : R < ρ := not_le.mp hgt
+          have hne : ρ ≠ 0 := by linarith [hgt', hR]
+          rw [min_eq_right hgt'.le]; field_simp
+      refine ⟨⟨pos.x + lam * (p.x - pos.x), pos.y + cy, pos.z + lam * (p.z - pos.z)⟩, ⟨?_, ?_⟩, ?_⟩
+      · -- radial distance of q is lam·ρ = min ρ R ≤ R
+        have e : (pos.x + lam * (p.x - pos.x) - pos.x) ^ 2 + (pos.z + lam * (p.z - pos.z) - pos.z) ^ 2 = (lam * ρ) ^ 2 := by
+          rw [mul_pow, sq ρ, hρρ]; ring
+        show Real.sqrt ((pos.x + lam * (p.x - pos.x) - pos.x) ^ 2 + (pos.z + lam * (p.z - pos.z) - pos.z) ^ 2) ≤ R
+        rw [e, Real.sqrt_sq (mul_nonneg hlam0 hρ0), hlamρ]
+        exact min_le_right _ _
+      · show |pos.y + cy - pos.y| ≤ h
+        rw [add_sub_cancel_left, hcy, abs_le]
+        constructor
+        · exact le_max_left _ _
+        · exact max_le (by linarith) (min_le_right _ _)
+      · -- the distance to q is the norm of the positive part of the profile
+        have hdist : p.DistanceSquared ⟨pos.x + lam * (p.x - pos.x), pos.y + cy, pos.z + lam * (p.z - pos.z)⟩
+            = (max (D 0) 0) ^ 2 + (max (D 1) 0) ^ 2 := by
+          have hr : (1 - lam) * ρ = max (D 0) 0 := by
+            rw [d0, sub_mul, one_mul, hlamρ]
+            rcases le_total ρ R with h1 | h1
+            · rw [min_eq_left h1, max_eq_right (by linarith)]; ring
+            · rw [min_eq_right h1, max_eq_left (by linarith)]
+          have ha : |p.y - pos.y - cy| = max (D 1) 0 := by
+            rw [d1, hcy]; exact clamp_dist _ _ hh
+          rw [← hr, ← ha, sq_abs]
+          simp only [V3.DistanceSquared]
+          have : ((1 - lam) * ρ) ^ 2 = (1 - lam) ^ 2 * ((p.x - pos.x) ^ 2 + (p.z - pos.z) ^ 2) := by
+            rw [mul_pow, sq ρ, hρρ]
+          rw [this]; ring
+        rw [distance_eq_sqrt, hdist]
+        have hn : ‖pos2 D‖ = Real.sqrt ((max (D 0) 0) ^ 2 + (max (D 1) 0) ^ 2) := by
+          rw [EuclideanSpace.norm_eq]; simp [pos2, Fin.sum_univ_two]
+        rw [← hn]; linarith [hneg]
+  · rintro ⟨q, hq, hd⟩
+    have hl := roundedCylinder_lipschitz pos ra rb h p q
+    have h1 := (abs_le.mp hl).2
+    have h2 := roundedCylinder_core_le pos ra rb h q hq
+    linarith
+
 /-! ### non-vacuity -/
+
+example : InCoreCyl (⟨0, 0, 0⟩ : P3) 1 (1/2) 1 ⟨1, 0, 0⟩ := by
+  constructor
+  · rw [show ((1 : ℝ) - 0) ^ 2 + ((0 : ℝ) - 0) ^ 2 = 1 by norm_num, Real.sqrt_one]; norm_num
+  · simp
 
 example : ∃ s : P3, Line (⟨0, 0, 0⟩ : P3) ⟨1, 0, 0⟩ 1 s = 0 ∧
     (⟨1/2, 0, 0⟩ : P3).Distance s = |Line (⟨0, 0, 0⟩ : P3) ⟨1, 0, 0⟩ 1 ⟨1/2, 0, 0⟩| :=
